@@ -32,7 +32,7 @@ Init ==
   /\ \E p1 \in P1, d \in D2, e \in ElPairs, swap \in BOOLEAN :
         LET p2 == <<p1[1]+d[1], p1[2]+d[2], p1[3]+d[3]>>
             p3 == <<p2[1]+120, p2[2]+120, p2[3]-100>> IN
-        /\ d # <<0, 0, 0>>
+        \* d = <<0,0,0>> is included: two distinct atoms on one position (a repeated record, superposed copies)
         /\ pos = IF Third THEN (1 :> p1 @@ 2 :> p2 @@ 3 :> p3) ELSE (1 :> p1 @@ 2 :> p2)
         /\ el  = IF Third THEN (1 :> e[1] @@ 2 :> e[2] @@ 3 :> "S") ELSE (1 :> e[1] @@ 2 :> e[2])
         /\ order = IF Third THEN (IF swap THEN <<3, 2, 1>> ELSE <<1, 3, 2>>)
